@@ -60,6 +60,7 @@ func symAssert(c bool, label string)
 func symCover(label string)
 func symChoose(name string, n int) int
 func symParam(name string, def int) int
+func symConcrete(v int) int
 func symObserve(name string, v interface{})
 func symLoopBound(n int)
 func symSetNow(t time.Time)
@@ -167,6 +168,7 @@ func symParam(name string, def int) int {
 	}
 	return def
 }
+func symConcrete(v int) int { return v }
 func symObserve(name string, v interface{}) {
 	zzObserved = append(zzObserved, zzObs{name, zzRender(v)})
 }
